@@ -20,12 +20,21 @@
         the consumer is proved invariant under permutation of the iterated elements. The sites
         that are NOT discharged are listed by `open_iteration_obligations` (they stay open
         obligations; the check searches them dynamically).
-  Not proved: that emitted code never contains a generated name (this is false for
-  *standard-cl-22*, see the `purity:cl22-gensym-leak` finding) and the compiler body itself.
+    (d) the fresh-name counter, on the byte-tied core2 compiler model (`Core2.compileCore2With k`:
+        `rename.rs` with the counter threaded exactly as `gensym` is called, then inline expansion,
+        let hoisting, code generation): the emitted code contains paths only — it is invariant under
+        EVERY injective renaming of the names of a program (`compile_core2_name_independent`), hence
+        equal for two counter values whenever the two renamings differ by a name permutation
+        (`compile_core2_counter_independent_partial`; the permutation is given explicitly and the link
+        is a decidable equation).  That user names must not contain `_$_` is necessary
+        (`fresh_looking_user_name_breaks_independence`).
+  Not proved: that emitted code never contains a generated name for the compiler as a whole (this is
+  false for *standard-cl-22*, see the `purity:cl22-gensym-leak` finding) and the compiler body itself.
 -/
 import ChialispModel.Generated.Statics
 import ChialispModel.Generated.IterSites
 import ChialispModel.Proofs.PurityLemmas
+import ChialispModel.Proofs.Core2FreshLemmas
 
 namespace C05
 open Purity
@@ -178,5 +187,97 @@ example : (exec 3 (.seq (.guarded false (.seq .observe (.guarded true (.seq .obs
 example : ((exec 3 (.guarded false (.seq .observe (.stop .early))) ⟨fun _ => true⟩).world.mode 3) = true := by decide
 example : [3, 1, 2].Perm [1, 2, 3] := by decide
 example : insertAllSet (fun _ => false) [(3 : Nat), 1, 2] 2 = true := by decide
+
+/-! ### (d) the fresh-name counter (core2 compiler model) -/
+
+open Core2 in
+/-- **the emitted code contains paths only, never names**: for every core2 program (parameter
+    patterns without integer leaves) and every injective renaming σ of ALL its names (parameters,
+    let-bound names, variable references, function names) that keeps `@` and the empty name, the
+    compiler model emits the same code for the renamed program. -/
+theorem compile_core2_name_independent (σ : Bytes → Bytes) (hσ : NameInj σ) (P : Core2.Prog)
+    (hp : patsAtomic P = true) : compileNS (mapProg σ P) = compileNS P :=
+  compileNS_mapProg hσ P hp
+
+/-
+  Full statement (kept visible; NOT proved in this generality):
+    ∀ P k k', progWF P → noFreshNames P → compileCore2With k P = compileCore2With k' P
+                                           ∧ compileCore2With k P = compileCore2 P.
+  Proved: the statement for every P, k, k' for which the explicitly given name permutation
+  `swapAll (linkPairs k k' P)` (exchange the i-th name drawn from k with the i-th name drawn from k')
+  carries one renaming to the other — a decidable equation between two programs.  Missing for the
+  full statement: (1) the arithmetic fact that this equation holds whenever `noFreshNames P` and the
+  ranges k+1..k+n, k'+1..k'+n are disjoint (injectivity of the decimal rendering; overlapping ranges
+  go through a third, disjoint one); (2) equality with the depth-named model `compileCore2`, whose
+  names are not an injective image of the counter names (sibling scopes reuse a name): that needs
+  alpha-invariance relative to a scope, not a global renaming.  Both equalities are checked on every
+  generated program by the tie (`modeld fresh` = `cvh fresh` = `modeld core2`, bytes and names).
+-/
+open Core2 in
+theorem compile_core2_counter_independent_partial (P : Core2.Prog) (k k' : Nat)
+    (hp : patsAtomic P = true)
+    (hok : pairsOk (linkPairs k k' P) = true)
+    (hlink : mapProg (swapAll (linkPairs k k' P)) (renameProgWith k P) = renameProgWith k' P) :
+    compileCore2With k P = compileCore2With k' P := by
+  unfold compileCore2With
+  rw [← hlink]
+  exact (compileNS_mapProg (swapAll_inj _ hok) _ (patsAtomic_renameProgWith k P hp)).symm
+
+/-- `(mod (X Y) (defun-inline sq (A) (let ((B (+ A 1)) (A (* A 2))) (let* ((A (+ A B)) (C (- A 1))) (* A C))))
+         (defun g (P Q) (if P (let ((Q (sq Q))) (+ Q P)) (sq Q))) (let ((Z (g X Y))) (c Z (sq X))))`:
+    let, let*, shadowing of a parameter and of a let-bound name, an inline function. -/
+def freshExample : Core2.Prog :=
+  { params := .cons (.atom [88]) (.cons (.atom [89]) .nil)
+    fns := [
+      { name := [115, 113], params := .cons (.atom [65]) .nil, inline := true,
+        body := .letE [[66], [65]]
+          (.cons (.op 16 (.cons (.var [65]) (.cons (.lit (.atom [1])) .nil)))
+            (.cons (.op 18 (.cons (.var [65]) (.cons (.lit (.atom [2])) .nil))) .nil))
+          (.letE [[65]] (.cons (.op 16 (.cons (.var [65]) (.cons (.var [66]) .nil))) .nil)
+            (.letE [[67]] (.cons (.op 17 (.cons (.var [65]) (.cons (.lit (.atom [1])) .nil))) .nil)
+              (.op 18 (.cons (.var [65]) (.cons (.var [67]) .nil))))) },
+      { name := [103], params := .cons (.atom [80]) (.cons (.atom [81]) .nil), inline := false,
+        body := .ite (.var [80])
+          (.letE [[81]] (.cons (.call [115, 113] (.cons (.var [81]) .nil)) .nil)
+            (.op 16 (.cons (.var [81]) (.cons (.var [80]) .nil))))
+          (.call [115, 113] (.cons (.var [81]) .nil)) } ]
+    body := .letE [[90]] (.cons (.call [103] (.cons (.var [88]) (.cons (.var [89]) .nil))) .nil)
+      (.op 4 (.cons (.var [90]) (.cons (.call [115, 113] (.cons (.var [88]) .nil)) .nil))) }
+
+-- non-vacuity: the hypotheses hold for the example (9 names drawn; counters 0 and 41), and the
+-- conclusion is not `none = none`
+example : Core2.progWF freshExample = true ∧ Core2.noFreshNames freshExample = true ∧
+    Core2.patsAtomic freshExample = true ∧ Core2.drawsProg freshExample = 9 := by decide
+example : Core2.pairsOk (Core2.linkPairs 0 41 freshExample) = true := by decide
+example : Core2.compileCore2With 0 freshExample = Core2.compileCore2With 41 freshExample :=
+  compile_core2_counter_independent_partial freshExample 0 41 (by decide) (by decide) (by rfl)
+example : (Core2.compileCore2With 0 freshExample).isSome = true := by decide
+-- the counter-named model and the depth-named model of C01 (which carries `compile_core2_correct_partial`)
+-- emit the same code (here: on the example; on every generated program by the tie)
+example : Core2.compileCore2With 0 freshExample = Core2.compileCore2 freshExample := by decide
+example : Core2.compileCore2With 1000000 freshExample = Core2.compileCore2 freshExample := by decide
+-- the renaming really depends on the counter, and the first generated name is `A_$_1`
+example : (Core2.drawnNames 0 freshExample).head? = some [65, 95, 36, 95, 49] ∧
+    (Core2.drawnNames 41 freshExample).head? = some [65, 95, 36, 95, 52, 50] := by decide
+-- an instance of the renaming lemma with a non-trivial σ
+example : Core2.compileNS (Core2.mapProg (Core2.swapAll [([88], [120, 120]), ([115, 113], [81, 81])]) freshExample) =
+    Core2.compileNS freshExample :=
+  compile_core2_name_independent _ (Core2.swapAll_inj _ (by decide)) _ (by decide)
+
+/-- `(mod (X) (let ((A_$_2 X)) (let ((A 5)) A)))`: the outer let binds a name that looks like the name
+    the inner `A` gets when the counter starts at 0. -/
+def freshLookingExample : Core2.Prog :=
+  { params := .cons (.atom [88]) .nil, fns := [],
+    body := .letE [[65, 95, 36, 95, 50]] (.cons (.var [88]) .nil)
+      (.letE [[65]] (.cons (.lit (.atom [5])) .nil) (.var [65])) }
+
+/-- **the side condition `noFreshNames` is needed**: `rename` applies a let's renaming to the already
+    renamed body, so a user name of the form `A_$_<n>` captures the generated name of an inner `A`
+    when the counter happens to be n-1: the emitted code then depends on the counter (with counter 0
+    the program returns X, with counter 7 it returns 5). -/
+theorem fresh_looking_user_name_breaks_independence :
+    Core2.progWF freshLookingExample = true ∧ Core2.noFreshNames freshLookingExample = false ∧
+    Core2.compileCore2With 0 freshLookingExample ≠ Core2.compileCore2With 7 freshLookingExample ∧
+    Core2.compileCore2With 7 freshLookingExample = Core2.compileCore2 freshLookingExample := by decide
 
 end C05
